@@ -3,10 +3,11 @@
 From Coq Require Import extraction.Extraction extraction.ExtrOcamlBasic extraction.ExtrOcamlString.
 From Coq Require Import ZArith String List.
 From SvgdxModel Require Import Base.Str Base.Res Num.F32 Model.Types Model.Run Model.Xml Model.Front
-  Model.Themes Model.Rng Model.RngRun Model.ExprRun.
+  Model.Themes Model.Rng Model.RngRun Model.ExprRun Model.Svgdx.
 Extraction "model.ml" fstr_bits strp_bits fdisplay_bits attr_split split_compound_attr errkind_name
   run_posbbox run_elbbox run_xfrm run_resolve run_connect
   run_textattr run_textstring passthrough_doc read_xml unesc escape5 blank_line_remover
   run_front run_theme run_autostyles run_rng_attr
   run_rootattrs mk_node run_docroot
-  run_evalattr run_evalcond run_evallist run_rngwords.
+  run_evalattr run_evalcond run_evallist run_rngwords
+  run_doc.
